@@ -15,6 +15,13 @@ Clauses
   class-attributes     one attribute per non-derived attribute of supported type, named as modeled, typed by the base type
   edit-changes-exactly diff(before, after) of the generated declarations == diff of the reference declarations
   build-raises         build_schema raised on a well-formed model
+
+Two kinds of cases.  A plain case loads the rows before and after the last edit into fresh models.  A session
+(case['session']) loads the seed ONCE and keeps that model: a schema is generated for every component of the model, then
+each edit of the script is applied to the rows and, through the xtuml API, to the loaded model (bounded/_c20_live.py: a
+move re-relates the PE_PE of the class / type / package, a retype re-relates the attribute, ...), and schemas are
+generated again from the same model in the same process.  Every generation is compared with the independent walk of
+the rows as they are at that moment, and consecutive generations by their differences.
 """
 import vlib.fresh_ply  # noqa: F401
 import itertools
@@ -26,6 +33,7 @@ from vlib.bounded import item
 
 from . import _c14_rows as R
 from . import _c14_synth as S
+from . import _c20_live as L
 from . import _c20_ref as X
 from . import c14 as C14
 
@@ -47,6 +55,10 @@ def apply_op(rows, op):
         X.edit_reorder_enumerators(rows, op[1], op[2])
     elif k == 'move_class':
         X.edit_move_class(rows, op[1], op[2])
+    elif k == 'move_type':
+        X.edit_move_type(rows, op[1], op[2])
+    elif k == 'move_package':
+        X.edit_move_package(rows, op[1], op[2])
     else:
         C14.apply_op(rows, op)
 
@@ -58,6 +70,20 @@ def component_names(rows):
 def enum_names(rows):
     edts = set(r.get('DT_ID') for r in rows if r.kind == 'S_EDT')
     return [r.get('Name') for r in rows if r.kind == 'S_DT' and r.get('DT_ID') in edts]
+
+
+def user_type_names(rows):
+    udts = set(r.get('DT_ID') for r in rows if r.kind == 'S_UDT')
+    return [r.get('Name') for r in rows if r.kind == 'S_DT' and r.get('DT_ID') in udts]
+
+
+def fresh_type_name(rows):
+    have = set(r.get('Name') for r in rows if r.kind == 'S_DT')
+    n, name = 1, 'Added_T'
+    while name in have:
+        n += 1
+        name = 'Added_T%d' % n
+    return name
 
 
 def site_ops(rows, types):
@@ -85,10 +111,19 @@ def site_ops(rows, types):
             ops.append(['add_enumerator', en, 'Added', 1])
             for p in list(itertools.permutations(names))[1:6]:
                 ops.append(['reorder_enumerators', en, list(p)])
+    tname = fresh_type_name(rows)
     for where in [None] + comps:
-        for base in types[:7]:
-            ops.append(['add_udt', 'Added_T', base, where])
-        ops.append(['add_enum', 'Added_E', ['P', 'Q', 'R'], where])
+        for base in types[:7] + [u for u in user_type_names(rows) if u not in types[:7]]:
+            ops.append(['add_udt', tname, base, where])      # (also on top of the user types of the model: layers)
+        if 'Added_E' not in enum_names(rows):
+            ops.append(['add_enum', 'Added_E', ['P', 'Q', 'R'], where])
+    for tn in user_type_names(rows) + enum_names(rows):
+        for where in comps + [None]:
+            ops.append(['move_type', tn, where])
+    for pn in X.package_names(rows):
+        for where in comps + [None]:
+            if X.package_names(rows).count(pn) == 1 and X.can_move_package(rows, pn, where):
+                ops.append(['move_package', pn, where])
     for s in range(3):
         ops.append(['permute_rows', s])
     ops.append(['reverse_rows'])
@@ -114,7 +149,81 @@ def observe(rows, comp, load_globals):
     return raw, pretty
 
 
+def diff_violation(obs0, obs1, ref0, ref1):
+    """The declarations changed exactly as the reference declarations did (types the property is silent about left out)."""
+    names = set(ref0.get('unclear', [])) | set(ref1.get('unclear', []))
+    do = X.diff(X.strip_enum_base(X.without(obs0, names)), X.strip_enum_base(X.without(obs1, names)))
+    strip = lambda d: dict((k, v) for k, v in d.items() if k != 'unclear')
+    dr = X.diff(strip(X.without(ref0, names)), strip(X.without(ref1, names)))
+    return None if do == dr else dict(clause='edit-changes-exactly', observed=do, required=dr)
+
+
+def observe_model(m, comp):
+    from bridgepoint import gen_xsd_schema
+    from xtuml import where_eq
+    c_c = m.select_any('C_C', where_eq(Name=comp))
+    assert c_c is not None
+    schema = gen_xsd_schema.build_schema(m, c_c)
+    raw = ET.tostring(schema, 'utf-8')
+    return raw, gen_xsd_schema.prettify(raw)
+
+
+def run_session(case):
+    """One loaded model, a schema for every component before the script and after each of its edits."""
+    out = []
+    rows = C14.seed(case['seed'])
+    load_globals = C14.with_globals(case['seed'])
+    live = L.Live(rows, load_globals)
+    glob = R.seed_rows('globals') if load_globals else []
+    script = case.get('script', [])
+    prev = {}
+    for g in range(len(script) + 1):
+        if g:
+            apply_op(rows, script[g - 1])
+            live.sync(rows)
+        bad = live.verify(rows)
+        if bad:
+            return [dict(clause='harness-error', observed=bad, required='the loaded model follows the rows (edit %d)' % g)]
+        walk = X.XWalk(rows + glob)
+        cur = {}
+        for comp in component_names(rows):
+            where = dict(generation=g, after=script[g - 1] if g else None, component=comp)
+            ref = walk.expected(comp)
+            try:
+                raw, pretty = observe_model(live.m, comp)
+            except BaseException as e:
+                if isinstance(e, (KeyboardInterrupt, MemoryError)):
+                    raise
+                out.append(dict(clause='build-raises', observed=dict(where, error=traceback.format_exc().splitlines()[-3:]), required='a schema'))
+                return out
+            try:
+                obs, odd = X.read_xsd(pretty)
+                obs_raw, _ = X.read_xsd(raw)
+            except ET.ParseError as e:
+                out.append(dict(clause='well-formed-xml', observed=dict(where, error=str(e)), required='XML'))
+                return out
+            if obs != obs_raw:
+                out.append(dict(clause='well-formed-xml', observed=dict(where, error='prettify changes the declarations'), required='same document'))
+            if odd:
+                out.append(dict(clause='schema-shape', observed=dict(where, odd=odd), required='simple types + one component element'))
+            vs = []
+            X.compare(obs, ref, vs)
+            for v in vs:
+                out.append(dict(clause=v['clause'], observed=dict(where, declared=v['observed']), required=v['required']))
+            if comp in prev and not vs:
+                v = diff_violation(prev[comp][0], obs, prev[comp][1], ref)
+                if v:
+                    out.append(dict(clause=v['clause'], observed=dict(where, changes=v['observed']), required=v['required']))
+            cur[comp] = (obs, ref)
+        if out:
+            return out          # later generations repeat the same difference
+        prev = cur
+    return out
+
+
 def run_case(case):
+    if case.get('session'):
+        return run_session(case)
     out = []
     comp = case['comp']
     rows = C14.seed(case['seed'])
@@ -158,10 +267,9 @@ def run_case(case):
             out.append(dict(clause='schema-shape', observed=odd, required='simple types + one component element'))
         X.compare(obs, ref, out)
     if len(states) == 2 and observed[0] is not None and observed[1] is not None:
-        do = X.diff(X.strip_enum_base(observed[0]), X.strip_enum_base(observed[1]))
-        dr = X.diff(refs[0], refs[1])
-        if do != dr:
-            out.append(dict(clause='edit-changes-exactly', observed=do, required=dr))
+        v = diff_violation(observed[0], observed[1], refs[0], refs[1])
+        if v:
+            out.append(v)
     return out
 
 
@@ -217,7 +325,7 @@ def real_cases(depth):
             'derive, move class to each component/top level, add enumerator front/middle/end, reorder enumerators, add user '
             'type on 7 bases / enumeration globally or in a component, 4 row orders, second component) at every site; every edit '
             'after adding a second component, for both components; thorough: every pair of edits (types restricted to 4 x 6)',
-      shards=10, weight=3)
+      shards=6, weight=3)
 def real_models(ctx):
     for i, case in enumerate(real_cases(1 if ctx.quick else 2)):
         if i % ctx.nshards != ctx.shard:
@@ -275,7 +383,7 @@ def synth_cases(quick, rng_seed):
       bound='class diagrams with <=3 classes and <=3 relationships in 4 component layouts (package in component, two components, '
             'nested component, classes directly in a component): every one-relationship shape for each component (exhaustive); '
             '300 (quick) / 5000 (thorough) seeded random diagrams with attributes of 10 types, derived attributes and 0-2 edits',
-      shards=6, weight=2)
+      shards=3, weight=2)
 def synthesised(ctx):
     for i, case in enumerate(synth_cases(ctx.quick, ctx.seed)):
         if i % ctx.nshards != ctx.shard:
@@ -289,6 +397,208 @@ def synthesised(ctx):
     if ctx.shard == 0:
         ctx.note('attribute order inside a class element, minOccurs/maxOccurs, the restriction base of enumerations and the scope of types '
                  'that live in a component enclosing the generated one are not demanded by the property and are not compared')
+
+
+# ------------------------------------------------------------------ layered user types ------------------------------------------------
+LAYER_BASES = ['boolean', 'integer', 'real', 'string', 'unique_id', 'My_Enum', 'date', 'timestamp', 'inst_ref<Object>', 'state<State_Model>']
+SYNTH_LAYER_BASES = ['boolean', 'integer', 'real', 'string', 'unique_id', 'Colour', 'Len', 'date', 'inst_ref<Object>']
+
+
+def layer_script(base, depth, wheres, tag='Layer'):
+    """User types tag1 on base, tag2 on tag1, ...; wheres: where each layer lives (None: global, else a component)."""
+    script, below = [], base
+    for d in range(depth):
+        script.append(['add_udt', '%s%d' % (tag, d + 1), below, wheres[d % len(wheres)]])
+        below = '%s%d' % (tag, d + 1)
+    return script, below
+
+
+def layer_cases(quick):
+    """A stack of 1..3 user types on every base type, used by a base attribute that referential attributes refer to, by a
+    plain attribute and by a new attribute; the layers live globally and / or in components."""
+    # the real model: Class.Id is referred to by Reflexive_Class.Id and Assoc_Class.One_Id / Other_Id, Subtype.Id by Supertype.Id and Class.Other_Id
+    patterns = [[None], ['Comp'], [None, 'Comp'], ['Comp', None]]
+    n = 0
+    for base in LAYER_BASES:
+        for depth in (1, 2, 3):
+            for pat in patterns if not quick else [patterns[(n + depth) % 4], patterns[(n + depth + 1) % 4]]:
+                script, top = layer_script(base, depth, pat)
+                for use in (['retype_attr', 'Class', 'Id', top], ['retype_attr', 'Subtype', 'Id', top], ['add_attr', 'Supertype', 'Added', top]):
+                    yield dict(seed='Simple_Model', script=script + [use], comp='Comp')
+            n += 1
+    # two components: the layers live in the other component / the use is in the other component
+    addc = ['add_component', 'Comp2', [['Extra', 'XTR', [['N', 'integer'], ['S', 'string']]]]]
+    for base in LAYER_BASES:
+        for depth in (2, 3):
+            script, top = layer_script(base, depth, ['Comp2', None, 'Comp'])
+            for use in (['retype_attr', 'XTR', 'N', top], ['retype_attr', 'Class', 'Id', top]):
+                for comp in ('Comp', 'Comp2'):
+                    yield dict(seed='Simple_Model', script=[addc] + script + [use], comp=comp)
+    # synthesised diagrams: the identifier of a class that others refer to (simple, reflexive, linked, subtype) gets the stack
+    shapes = [dict(classes=S.classes_for(2), rels=[['simple', 1, 'A', 'B', 0, 0, 1, 1, 'has', 'is of']]),
+              dict(classes=S.classes_for(1), rels=[['simple', 2, 'A', 'A', 0, 1, 0, 1, 'follows', 'leads']]),
+              dict(classes=S.classes_for(3), rels=[['linked', 3, 'C', 'A', 'B', 1, 0, 1, 1, 'near', 'far']]),
+              dict(classes=S.classes_for(3), rels=[['subsup', 6, 'A', ['B', 'C']]]),
+              dict(classes=S.classes_for(3), rels=[['simple', 1, 'B', 'A', 1, 1, 0, 0, '', ''], ['subsup', 2, 'B', ['C']]])]
+    n = 0
+    for d in shapes:
+        for layout in ('L1', 'L2', 'L3', 'L4'):
+            dd = dict(d, layout=layout)
+            comps = S.components_of(layout)
+            rows = S.build(dd)
+            referred = set()
+            t = R.Tables(rows)
+            kl_of = dict((o['Obj_ID'], o['Key_Lett']) for o in t['O_OBJ'])
+            for r in t['O_RATTR']:
+                referred.add(kl_of[r['BObj_ID']])
+            for base in SYNTH_LAYER_BASES:
+                for depth in (1, 2, 3):
+                    n += 1
+                    if quick and n % 3:
+                        continue
+                    script, top = layer_script(base, depth, [None] + comps)
+                    for kl in sorted(referred):
+                        if 'Id' in R.attr_order(rows, kl):
+                            for comp in comps if not quick else [comps[n % len(comps)]]:
+                                yield dict(seed=['synth', dd], script=script + [['retype_attr', kl, 'Id', top]], comp=comp)
+
+
+@item('type-layers', stands_in_for=['bridgepoint.gen_xsd_schema.build_class', 'bridgepoint.gen_xsd_schema.build_user_type',
+                                    'bridgepoint.gen_xsd_schema.get_type_name', 'bridgepoint.gen_xsd_schema.get_refered_attribute'],
+      bound='stacks of 1-3 user types on each of 10 base types (5 supported core types, enumeration, user type, date, timestamp, '
+            'inst_ref<Object>, state<State_Model>), the layers global and/or in a component, used by an attribute that referential '
+            'attributes refer to (directly and through a chain), by a plain and by a new attribute: Simple_Model with one and two '
+            'components; 5 synthesised relationship shapes (simple, reflexive, linked, subtypes, chain) x 4 component layouts '
+            '(quick: every third stack, one component; 2 of 4 placements)',
+      shards=3, weight=1)
+def type_layers(ctx):
+    for i, case in enumerate(layer_cases(ctx.quick)):
+        if i % ctx.nshards != ctx.shard:
+            continue
+        if ctx.expired():
+            ctx.exhausted = False
+            break
+        check_case(ctx, case)
+    else:
+        ctx.exhausted = True
+    if ctx.shard == 0:
+        ctx.note('whether a simple type is declared for a user type stacked on a user type whose innermost base is not a supported '
+                 'type (date, inst_ref<Object>, ...) is not said by the property and is not compared; its attributes are (none declared)')
+
+
+# ------------------------------------------------------------------ sessions: several generations from one model -----------------------
+ADD_COMP2 = ['add_component', 'Comp2', [['Extra', 'XTR', [['N', 'integer'], ['S', 'My_Enum']]]]]
+
+
+def session_ops(rows, types, script):
+    """The edits applicable now (no second component of the same name, no type name twice)."""
+    ops = []
+    for o in site_ops(rows, types):
+        if o[0] == 'add_component' and any(s[0] == 'add_component' for s in script):
+            continue
+        if o[0] == 'add_attr' and R._attr_rows(rows, o[1]) and o[2] in R.attr_order(rows, o[1]):
+            continue
+        if o[0] == 'add_enumerator' and o[2] in [r.get('Name') for r in X.enum_order(rows, o[1])]:
+            continue
+        if o[0] == 'rename_attr' and o[3] in R.attr_order(rows, o[1]):
+            continue
+        ops.append(o)
+    return ops
+
+
+MOVES = ('move_class', 'move_type', 'move_package')
+
+
+def random_session(rng, rows, types, length, p_move=0.5):
+    script = []
+    for _ in range(length):
+        ops = session_ops(rows, types, script)
+        moves = [o for o in ops if o[0] in MOVES]
+        pool = moves if moves and rng.random() < p_move else ops
+        op = rng.choice(pool)
+        apply_op(rows, op)
+        script.append(op)
+    return script
+
+
+def session_cases(quick, rng_seed):
+    # the real model with a second component: every move there, back, and somewhere else, other edits in between
+    plain = lambda rs: [o for o in site_ops(rs, RETYPES) if o[0] not in MOVES and o[0] not in ('add_component', 'permute_rows', 'reverse_rows')]
+    rows = R.seed_rows('Simple_Model')
+    first = plain(rows)             # edits possible before the second component exists
+    apply_op(rows, ADD_COMP2)
+    moves = [o for o in site_ops(rows, RETYPES) if o[0] in MOVES]
+    others = plain(rows)
+    for i, mv in enumerate(moves):
+        back = [mv[0], mv[1], 'Comp' if mv[2] != 'Comp' else 'Comp2']
+        if mv[0] == 'move_package':
+            rows1 = [r.copy() for r in rows]
+            apply_op(rows1, mv)
+            if not X.can_move_package(rows1, back[1], back[2]):
+                back = None
+        other = others[(i * 7) % len(others)]
+        yield dict(seed='Simple_Model', session=True, script=[ADD_COMP2, mv] + ([back] if back else []) + [other])
+        yield dict(seed='Simple_Model', session=True, script=[first[(i * 11) % len(first)], ADD_COMP2, mv] + ([back, mv] if back else []))
+    # a move before the second component exists (to the top level and back)
+    rows = R.seed_rows('Simple_Model')
+    for mv in [o for o in site_ops(rows, RETYPES) if o[0] in MOVES and o[2] is None]:
+        yield dict(seed='Simple_Model', session=True, script=[mv, [mv[0], mv[1], 'Comp'], ADD_COMP2, [mv[0], mv[1], 'Comp2']])
+    # every other edit once between two generations
+    for i, other in enumerate(o for o in site_ops(rows, RETYPES) if o[0] not in MOVES):
+        if quick and i % 3:
+            continue
+        yield dict(seed='Simple_Model', session=True, script=[other])
+    # random sessions on the real model
+    # (the random sessions are built only by the shard that runs them: a callable -> case or None)
+    def real(i):
+        rng = random.Random('c20/session/real/%s/%d' % (rng_seed, i))
+        rows = R.seed_rows('Simple_Model')
+        script = [ADD_COMP2] if rng.random() < 0.7 else []
+        for op in script:
+            apply_op(rows, op)
+        script += random_session(rng, rows, RETYPES, rng.choice([2, 3, 4, 5]))
+        return dict(seed='Simple_Model', session=True, script=script)
+
+    def synth(i):
+        rng = random.Random('c20/session/synth/%s/%d' % (rng_seed, i))
+        d = S.random_diagram(rng)
+        d['layout'] = rng.choice(['L1', 'L2', 'L2', 'L3', 'L3', 'L4'])
+        if not S.well_formed(d):
+            return None
+        rows = S.build(d)
+        script = random_session(rng, rows, SYNTH_TYPES, rng.choice([2, 3, 4, 5]), p_move=0.6)
+        return dict(seed=['synth', d], session=True, script=script)
+
+    # random sessions on the real model
+    for i in range(120 if quick else 2500):
+        yield lambda i=i: real(i)
+    # random sessions on synthesised diagrams in every component layout
+    for i in range(240 if quick else 5000):
+        yield lambda i=i: synth(i)
+
+
+@item('sessions', stands_in_for=['bridgepoint.gen_xsd_schema.build_schema', 'bridgepoint.gen_xsd_schema.build_component',
+                                 'bridgepoint.ooaofooa.is_contained_in', 'bridgepoint.ooaofooa.is_global'],
+      bound='one loaded model per session, a schema for EVERY component before the script and after each edit (2-7 generations '
+            'per component in one process), edits applied to the loaded model through relate/unrelate/new/delete/attribute '
+            'assignment: Simple_Model + second component: every move of a class / user type / enumeration / package to each '
+            'component and the top level, back, and again, with one other edit; every other edit alone (quick: every third); '
+            '120 (quick) / 2500 (thorough) random sessions of 2-5 edits on the real model, 240 / 5000 on random diagrams '
+            '(<=3 classes, <=3 relationships) in 4 component layouts, half of the edits moves',
+      shards=4, weight=2)
+def sessions(ctx):
+    for i, case in enumerate(session_cases(ctx.quick, ctx.seed)):
+        if i % ctx.nshards != ctx.shard:
+            continue
+        if ctx.expired():
+            ctx.exhausted = False
+            break
+        if callable(case):
+            case = case()
+        if case is not None:
+            check_case(ctx, case)
+    else:
+        ctx.exhausted = True
 
 
 def replay(item_name, input):
